@@ -31,6 +31,10 @@ CONSTANTS MaxLines, Tokens,
                      \*           appends its index to a queue, "}" pops the OLDEST one, nothing clears the queue when a
                      \*           section closes - a stray "{" in one body makes every later section start inside an
                      \*           earlier one.  It must violate OwnBlock.
+                     \* "filtered": another WRONG design (seeded changes C02e, C14b, C13k - three agents, three rounds): the
+                     \*           scan counts positions in a copy of the file without its blank lines, the bodies are then
+                     \*           cut from the ORIGINAL by those positions - every section behind a blank line is cut too
+                     \*           early.  It must violate C06Framing (blank lines are ordinary body lines of a well-formed file).
 
 VARIABLES pc,        \* "write" | "scan" | "done"
           file,      \* the line tokens
@@ -60,6 +64,9 @@ Store(secs, tg, lo, hi, at, br) ==
   THEN [k \in DOMAIN secs |-> IF secs[k].tag = tg THEN rec ELSE secs[k]]
   ELSE Append(secs, rec)
 
+\* the position the design takes line i to have: its index in the file, or (design "filtered") among the non-blank lines
+Pos(k) == IF Design = "filtered" THEN Cardinality({ j \in 1..k : file[j] # "blank" }) ELSE k
+
 Scan ==
   /\ pc = "scan" /\ i <= Len(file)
   /\ LET line == file[i] IN
@@ -70,14 +77,14 @@ Scan ==
           ELSE /\ outcome' = "RegexNotMatchError" /\ pc' = "done"           \* RejectHeader
                /\ UNCHANGED <<i, tag, first, sections, hdrAt, opens>>
      ELSE IF line = "{"
-          THEN /\ first' = i + 1 /\ i' = i + 1                              \* ReadOpen (the last "{" wins)
+          THEN /\ first' = Pos(i) + 1 /\ i' = i + 1                         \* ReadOpen (the last "{" wins)
                /\ opens' = IF Design = "deque" THEN Append(opens, i + 1) ELSE opens
                /\ UNCHANGED <<tag, sections, outcome, pc, hdrAt>>
      ELSE IF line = "}"
           THEN \* ReadClose: slice [first, i-1]; with no "{" seen the slice starts at the file's first line
                /\ LET lo == IF Design = "deque" THEN (IF opens = <<>> THEN 1 ELSE Head(opens))
                                                 ELSE (IF first = 0 THEN 1 ELSE first)
-                  IN sections' = Store(sections, tag, lo, i - 1, hdrAt, first # 0)
+                  IN sections' = Store(sections, tag, lo, Pos(i) - 1, hdrAt, first # 0)
                /\ opens' = IF Design = "deque" /\ opens # <<>> THEN Tail(opens) ELSE opens
                /\ tag' = "" /\ first' = 0 /\ i' = i + 1 /\ hdrAt' = 0
                /\ UNCHANGED <<outcome, pc>>
